@@ -4,7 +4,7 @@
    slotted() was applied, the flags, and what was observed afterwards. *)
 From Coq Require Import List String Bool Arith PeanoNat.
 Import ListNotations.
-Require Import TL.Model.Slotted TL.Model.SlottedState.
+Require Import TL.Model.Slotted TL.Model.SlottedState TL.Model.SlottedInst.
 
 Fixpoint list_eqb {A} (e : A -> A -> bool) (a b : list A) : bool :=
   match a, b with [] , [] => true | x :: r, y :: t => e x y && list_eqb e r t | _, _ => false end.
@@ -85,9 +85,9 @@ Definition explains (l : list step) : list bool :=
         {| v_release := false; v_skip_provided := false; v_inherited_hooks := true |} ].
 
 (* ---- _slots_setstate called directly on a blank instance of a frozen slotted class ---- *)
-Inductive skind := SKOk | SKAttr | SKType | SKOther.
+Inductive skind := SKOk | SKAttr | SKType | SKOther | SKFrozen.
 Definition skind_eqb (a b : skind) : bool :=
-  match a, b with SKOk, SKOk | SKAttr, SKAttr | SKType, SKType | SKOther, SKOther => true | _, _ => false end.
+  match a, b with SKOk, SKOk | SKAttr, SKAttr | SKType, SKType | SKOther, SKOther | SKFrozen, SKFrozen => true | _, _ => false end.
 (* member slot names of the class, has an instance __dict__, the state handed over,
    observed: outcome, slot values, vars() *)
 Definition ss_case := (list attr * bool * pstate * skind * store * store)%type.
@@ -98,6 +98,7 @@ Definition ss_case_ok (c : ss_case) : bool :=
                && same_set entry_eqb (match i_dict r with Some d => d | None => [] end) odict
     | SRaise SAttribute => skind_eqb k SKAttr
     | SRaise SType => skind_eqb k SKType
+    | SRaise _ => false
     end
   end.
 
@@ -114,3 +115,134 @@ Definition pstate_eqb (a b : pstate) : bool :=
   end.
 Definition gs_case := (inst * pstate)%type.
 Definition gs_case_ok (c : gs_case) : bool := pstate_eqb (getstate (fst c)) (snd c).
+
+(* ---- instances of the slotted class: construction, comparison, state, copy / pickle ------ *)
+(* One case = one decorated dataclass: the class as reflected before slotted(), what the class model
+   leaves open (kinds of its objects, the dictionaries of the bases, defaults, what __post_init__
+   stores, the format of user hooks), and a list of constructor calls with what was observed on the
+   REAL slotted class.  The model side is computed from the model's own result of build. *)
+Definition kinds_of (l : list ukind) (k : nat) : ukind := nth k l UFunc.
+Definition tbl (l : store) (a : attr) : obj := match assoc a l with Some v => v | None => ONone end.
+(* values are encoded by the harness: an int is its own code *)
+Definition cmp_ops : vops :=
+  {| v_eq := obj_eqb; v_lt := fun x y => match x, y with OId p, OId q => Nat.ltb p q | _, _ => false end |}.
+
+Inductive ostate := OSDefault (p : pstate) | OSUser (u : store).
+Inductive rtobs := RTOk (s : store) (d : option store) | RTRaise (k : skind).
+Record iobs := {
+  io_slots : store; io_dict : option store;      (* raw storage: visible member slots, vars() *)
+  io_eq : option bool;                            (* x == x0, x0 = the first instance that could be made *)
+  io_lt : option (option bool);                   (* x < x0 (None inside: raised); None outside: not observed *)
+  io_hash : option hres; io_repr : rres;
+  io_state : option ostate;                       (* x.__reduce_ex__(4)[2] *)
+  io_rts : list rtobs                             (* copy.copy, copy.deepcopy, pickle round trips *)
+}.
+Inductive cobs := CRaise (k : skind) | COk (o : iobs).
+Record icall := { ic_pos : list obj; ic_kw : store; ic_obs : cobs }.
+Record icase := {
+  ik_flags : flags; ik_cls : cls; ik_kinds : list ukind; ik_bases : view;
+  ik_defaults : store; ik_factories : store; ik_post : store; ik_hookfmt : nat; ik_calls : list icall
+}.
+
+Definition sexn_kind (e : sexn) : option skind :=
+  match e with SAttribute => Some SKAttr | SType => Some SKType | SFrozen => Some SKFrozen | SUnmodelled => None end.
+Definition inst_same (r : inst) (s : store) (d : option store) : bool :=
+  store_eqb (i_slots r) s && ostore_eqb (i_dict r) d.
+Definition raise_ok (e : sexn) (k : skind) : bool :=
+  match sexn_kind e with Some k' => skind_eqb k k' | None => true end.
+Definition rt_ok (pred : sres) (o : rtobs) : bool :=
+  match pred, o with
+  | SOk r, RTOk s d => inst_same r s d
+  | SRaise SUnmodelled, _ => true
+  | SRaise e, RTRaise k => raise_ok e k
+  | _, _ => false
+  end.
+Definition hres_eqb (a b : hres) : bool :=
+  match a, b with
+  | HTuple x, HTuple y => list_eqb obj_eqb x y
+  | HIdentity, HIdentity | HRaise, HRaise | HUnmodelled, HUnmodelled => true
+  | _, _ => false
+  end.
+Definition rres_eqb (a b : rres) : bool :=
+  match a, b with
+  | RGen q x, RGen r y => String.eqb q r && list_eqb entry_eqb x y
+  | RDefault, RDefault | RRaise, RRaise | RUnmodelled, RUnmodelled => true
+  | _, _ => false
+  end.
+
+Definition iobs_ok (H : hooks store) (K : klass) (x0 : option inst) (same : bool) (x : inst) (o : iobs) : bool :=
+  inst_same x (io_slots o) (io_dict o)
+  && match io_eq o, x0 with
+     | Some b, Some y => match dc_eq cmp_ops K x y with
+                         | MBool b' => Bool.eqb b b' | MIdentity => Bool.eqb b same | MRaise => false | MUnmodelled => true
+                         end
+     | _, _ => true
+     end
+  && match io_lt o, x0 with
+     | Some ob, Some y => match dc_lt cmp_ops K x y, ob with
+                          | MBool b', Some b => Bool.eqb b b' | MRaise, None => true | MUnmodelled, _ => true | _, _ => false
+                          end
+     | _, _ => true
+     end
+  && match io_hash o with
+     | Some h => match dc_hash K x with HUnmodelled => true | p => hres_eqb p h end
+     | None => true
+     end
+  && match dc_repr K x with RUnmodelled => true | p => rres_eqb p (io_repr o) end
+  && match io_state o with
+     | Some s => match reduce_state H K x, s with
+                 | Some (RDefault' p), OSDefault p' => pstate_eqb p p'
+                 | Some (RUser u), OSUser u' => store_eqb u u'
+                 | None, _ => true
+                 | _, _ => false
+                 end
+     | None => true
+     end
+  && forallb (rt_ok (roundtrip H K (fun v => v) x)) (io_rts o).
+
+Fixpoint first_ok (rs : list sres) (i : nat) : option (nat * inst) :=
+  match rs with [] => None | SOk x :: _ => Some (i, x) | _ :: r => first_ok r (S i) end.
+
+Fixpoint calls_ok (H : hooks store) (K : klass) (x0 : option (nat * inst)) (cs : list icall) (rs : list sres) (i : nat) : bool :=
+  match cs, rs with
+  | [], [] => true
+  | cl :: cs', r :: rs' =>
+      (match r, ic_obs cl with
+       | SOk x, COk o => iobs_ok H K (match x0 with Some p => Some (snd p) | None => None end)
+                                  (match x0 with Some p => Nat.eqb (fst p) i | None => false end) x o
+       | SRaise SUnmodelled, _ => true
+       | SRaise e, CRaise k => raise_ok e k
+       | _, _ => false
+       end) && calls_ok H K x0 cs' rs' (S i)
+  | _, _ => false
+  end.
+
+Definition icase_ok (k : icase) : bool :=
+  let c := ik_cls k in
+  match build repaired (ik_flags k) c, c_dc c with
+  | Ok n, Some d =>
+      let E := {| e_kind := kinds_of (ik_kinds k); e_bases := ik_bases k |} in
+      let K := klass_of E n true in
+      let H := match ik_hookfmt k with 0 => field_hooks (kl_view K) (fnames d) | _ => dict_hooks (kl_view K) (fnames d) end in
+      let D := {| dv_default := tbl (ik_defaults k); dv_factory := tbl (ik_factories k) |} in
+      let rs := map (fun cl => construct K d D (ik_post k) (ic_pos cl) (ic_kw cl)) (ik_calls k) in
+      calls_ok H K (first_ok rs 0) (ik_calls k) rs 0
+  | _, _ => false
+  end.
+
+(* diagnosis: the model's predictions for a case (printed for the first mismatching cases only) *)
+Definition ipredict (k : icase) :=
+  let c := ik_cls k in
+  match build repaired (ik_flags k) c, c_dc c with
+  | Ok n, Some d =>
+      let E := {| e_kind := kinds_of (ik_kinds k); e_bases := ik_bases k |} in
+      let K := klass_of E n true in
+      let H := match ik_hookfmt k with 0 => field_hooks (kl_view K) (fnames d) | _ => dict_hooks (kl_view K) (fnames d) end in
+      let D := {| dv_default := tbl (ik_defaults k); dv_factory := tbl (ik_factories k) |} in
+      map (fun cl => let r := construct K d D (ik_post k) (ic_pos cl) (ic_kw cl) in
+                     (r, match r with
+                         | SOk x => Some (dc_hash K x, dc_repr K x, reduce_state H K x, roundtrip H K (fun v => v) x)
+                         | _ => None
+                         end)) (ik_calls k)
+  | _, _ => []
+  end.
